@@ -58,6 +58,8 @@ pub fn generate(check: &str, tier: &str, seed: u64, run: u64) -> Case {
         return Case { program: ws[run as usize].1.clone(), config };
     }
     let program = match check {
+        "C03" if run % 12 == 5 => crate::gen::gen_many_stores_mp(&mut rng, false),
+        "C04" if run % 12 == 5 => crate::gen::gen_many_stores_mp(&mut rng, true),
         "C02" | "C03" => gen_litmus_any(&mut rng, thorough),
         "C01" => {
             if rng.chance(1, 4) {
@@ -88,7 +90,8 @@ pub fn generate(check: &str, tier: &str, seed: u64, run: u64) -> Case {
         }
         "C06" => {
             config.iter_cap = 3000;
-            match rng.below(7) {
+            match rng.below(8) {
+                7 => gen_tls_lazy(&mut rng),
                 0 => gen_litmus_any(&mut rng, false),
                 1 => {
                     let pr = sync_profile(&mut rng, "lock");
